@@ -629,6 +629,15 @@ class MessageManager(ClientLike):
             failed: (module, error) pairs. error is None if the module was not ready (dropped message)
             header (MessageHeader): Header of the message that was not delivered
         """
+        # Take every module whose connection failed out of the routing tables first:
+        # the notices published below must not be offered to another dead module
+        # (one level of recursion per dead module otherwise).
+        for module, err in failed:
+            if err is not None and module.conn in self.modules:
+                for msg_type in module.subs:
+                    self.subscriptions[msg_type].discard(module)
+                self.logger_modules.discard(module)
+
         for module, err in failed:
             if err is not None and module.conn in self.modules:
                 self.remove_module(module)
